@@ -648,6 +648,59 @@ def rule_ltl0(prog, P):
                 if kw.arg == 'key' and 'height' in ast.unparse(kw.value):
                     keyok = True
     r.inst(function=P.atoms_fn.short(), sort_key_is_height=keyok)
+    # semantics of the key: height, except `not X psi` which must be ranked
+    # with `X psi` (height - 1) -- for LTL *and* CTL* classes (the CTL*
+    # checker feeds CTL*-class formulas to this tableau)
+    lam = None
+    for n in ast.walk(P.atoms_fn.node):
+        if isinstance(n, ast.Call) and isinstance(n.func, ast.Name) and \
+                n.func.id == 'sorted':
+            for kw in n.keywords:
+                if kw.arg == 'key' and isinstance(kw.value, ast.Lambda):
+                    lam = kw.value
+    if lam is not None:
+        from ..program import FuncInfo
+        for lang in ('LTL', 'CTLS'):
+            al2 = prog.alphabet(LANGS[lang])
+            h0 = make_hole(prog, 0, lang)
+            h1 = make_hole(prog, 1, lang)
+            cases = [('notX', New(al2['Not'], (New(al2['X'], (h0,)),)), -1),
+                     ('X', New(al2['X'], (h0,)), 0),
+                     ('U', New(al2['U'], (h0, h1)), 0),
+                     ('Or', New(al2['Or'], (h0, h1)), 0),
+                     ('notU', New(al2['Not'], (New(al2['U'], (h0, h1)),)), 0),
+                     ('atom', New(al2['AtomicProposition'],
+                                  (Const('p'),)), 0)]
+            for (cn, val, off) in cases:
+                hooks = LTLHooks(prog, P.atomcls, P.atoms_fn)
+                I = Interp(prog, hooks, rule='R-LTL-0')
+                path = I.new_path()
+                fo = path.alloc('frame')
+                path.heap[fo.oid].module = P.mod
+                path.heap[fo.oid].fnode = P.atoms_fn.node
+                fi = FuncInfo(P.mod, lam, None, qual='<sortkey>')
+                fi.name = '<lambda>'
+                res = I.call_function(FRef(fi, closure=fo.oid, node=lam),
+                                      [val], [], path, lam)
+                vals = [v for (p, v) in res if not isinstance(v, Raise)]
+                want = App('height', val) if off == 0 else \
+                    App('binop', Const('-'), App('height', val), Const(1))
+                r.inst(sort_key_of='%s.%s' % (lang, cn),
+                       value=[repr(v)[:80] for v in vals])
+                if vals == [want]:
+                    r.ok()
+                else:
+                    r.fail(Finding(
+                        PROP, 'R-LTL-0', P.atoms_fn.where(),
+                        P.atoms_fn.short(),
+                        'sort-key:%s:%s' % (lang, cn),
+                        'the sort key of a %s-class `%s` formula is %s, '
+                        'expected height%s: `not X psi` is no longer '
+                        'processed together with `X psi` (ties broken by '
+                        'hash order build inconsistent atoms; CTL* '
+                        'formulas reach this tableau with CTL* classes)' % (
+                            lang, cn, [repr(v)[:80] for v in vals],
+                            '' if off == 0 else ' - 1')))
     if keyok:
         r.ok()
     else:
